@@ -31,6 +31,8 @@ type ccScn struct {
 	DeclDelta  int    `json:"decl_delta"` // declared uncompressed_length = real + delta
 	DeclHuge   bool   `json:"decl_huge"`  // declared = 0xffffff
 	Corrupt    string `json:"corrupt"`    // "" | "truncate" | "flip" | "other"
+	DropExt    bool   `json:"drop_ext"`   // remove the compress_certificate extension after BuildHandshakeState
+	ZWindow    int    `json:"zwindow"`    // zstd encoder window size in bytes (0 = 128 KiB); a streamed frame declares it in its header
 }
 
 type flusher interface {
@@ -39,7 +41,7 @@ type flusher interface {
 	Close() error
 }
 
-func compressBody(alg, level, flushEvery int, body []byte) ([]byte, error) {
+func compressBody(alg, level, flushEvery, zwin int, body []byte) ([]byte, error) {
 	var buf bytes.Buffer
 	var w flusher
 	switch alg {
@@ -58,7 +60,7 @@ func compressBody(alg, level, flushEvery int, body []byte) ([]byte, error) {
 		} else if level >= 9 {
 			lv = zstd.SpeedBetterCompression
 		}
-		zw, err := zstd.NewWriter(&buf, zstd.WithEncoderLevel(lv), zstd.WithEncoderConcurrency(1), zstd.WithWindowSize(1<<17))
+		zw, err := zstd.NewWriter(&buf, zstd.WithEncoderLevel(lv), zstd.WithEncoderConcurrency(1), zstd.WithWindowSize(zwin))
 		if err != nil {
 			return nil, err
 		}
@@ -101,7 +103,7 @@ func mkCompressedCert(s *ccScn, certMsg []byte) ([]byte, int) {
 			fe = 1
 		}
 	}
-	comp, err := compressBody(s.Alg, s.Level, fe, src)
+	comp, err := compressBody(s.Alg, s.Level, fe, zwinOf(s), src)
 	if err != nil {
 		panic(err)
 	}
@@ -204,7 +206,24 @@ func init() {
 				if !found {
 					return fmt.Errorf("spec of %s has no compress_certificate extension", s.ID)
 				}
-				return u.ApplyPreset(&spec)
+				if err := u.ApplyPreset(&spec); err != nil {
+					return err
+				}
+				if s.DropExt {
+					// the caller builds the hello, then removes compress_certificate from uconn.Extensions (a documented
+					// edit): the hello on the wire no longer advertises any algorithm
+					if err := u.BuildHandshakeState(); err != nil {
+						return err
+					}
+					kept := u.Extensions[:0:0]
+					for _, e := range u.Extensions {
+						if _, ok := e.(*tls.UtlsCompressCertExtension); !ok {
+							kept = append(kept, e)
+						}
+					}
+					u.Extensions = kept
+				}
+				return nil
 			}})
 			peer := 0
 			if r.CErr == nil && len(r.CS.PeerCertificates) > 0 {
@@ -222,4 +241,11 @@ func init() {
 		}
 		return nil
 	})
+}
+
+func zwinOf(s *ccScn) int {
+	if s.ZWindow > 0 {
+		return s.ZWindow
+	}
+	return 1 << 17
 }
